@@ -36,7 +36,11 @@ static Binson build_obj(const vnode *o, vrng *r)
     for (uint32_t i = o->nkids; i > 1; i--) std::swap(order[i - 1], order[vrn(r, i)]);     /* random insertion order */
     for (uint32_t k = 0; k < o->nkids; k++) {
         const vnode *kid = o->kids[order[k]];
-        b.put(std::string((const char *)kid->name, kid->name_len), build_val(kid, r));
+        std::string key((const char *)kid->name, kid->name_len);
+        if (kid->kind == K_BYTES && vrn(r, 2)) b.put(key, kid->data, kid->data_len);            /* the (key, data, size) overload */
+        else if (kid->kind == K_OBJ && vrn(r, 2)) b.put(key, build_obj(kid, r));                 /* the (key, Binson) overload */
+        else b.put(key, build_val(kid, r));
+        if (vrn(r, 6) == 0) b.put(key, build_val(kid, r));                                        /* putting a key twice replaces */
     }
     return b;
 }
@@ -51,6 +55,7 @@ static std::string cmp_obj(const Binson &b, const vnode *o)
         if (it->first.size() != k->name_len || memcmp(it->first.data(), k->name, k->name_len) != 0) return "field name / order differs at index " + std::to_string(i);
         std::string e = cmp_val(it->second, k);
         if (!e.empty()) return e;
+        if (!b.hasKey(it->first) || &b.get(it->first) != &it->second) return "hasKey/get disagree with iteration at index " + std::to_string(i);
     }
     if (i != o->nkids) return "fewer fields than the tree has";
     return "";
